@@ -22,17 +22,32 @@ LShapes == {"flat", "skew", "random", "freq"}
 DShapes == {"flat", "skew", "random", "freq", "single", "none"}
 TokCls  == {"empty", "lits", "near", "far", "long", "mixed"}
 
-Blk(t, ls, ds, tk, rp, cr, fh, mh, sy) ==
+\* Two further degrees of freedom of the format that no common encoder uses:
+\*   worstcl  the code-length code of a dynamic header need not be optimal: any complete
+\*            code will do, also the one that spends 7 bits on every length value used.
+\*            Without run symbols and with HLIT/HDIST at their maximum the header then
+\*            reaches the format's limit of 17 + 19*3 + 316*7 bits = 286 bytes.
+\*   alt258   length 258 has two spellings that zlib and compress/flate both decode:
+\*            symbol 285, or symbol 284 with extra bits 31 (227 + 31).
+Blk(t, ls, ds, tk, rp, cr, fh, mh, sy, wc, a8) ==
   [type |-> t, lshape |-> ls, dshape |-> ds, toks |-> tk, repeat |-> rp, cross |-> cr,
-   fullhclen |-> fh, maxh |-> mh, sync |-> sy]
+   fullhclen |-> fh, maxh |-> mh, sync |-> sy, worstcl |-> wc, alt258 |-> a8]
 
-Stored == { Blk("stored", "flat", "flat", tk, FALSE, FALSE, FALSE, FALSE, sy) : tk \in {"empty", "lits"}, sy \in BOOLEAN }
-Fixed  == { Blk("fixed", "flat", "flat", tk, FALSE, FALSE, FALSE, FALSE, sy) : tk \in TokCls, sy \in BOOLEAN }
-Dyn    == { b \in { Blk("dyn", ls, ds, tk, rp, cr, fh, mh, sy) :
+HasMatches(tk) == tk \notin {"empty", "lits"}
+Stored == { Blk("stored", "flat", "flat", tk, FALSE, FALSE, FALSE, FALSE, sy, FALSE, FALSE) : tk \in {"empty", "lits"}, sy \in BOOLEAN }
+Fixed  == { b \in { Blk("fixed", "flat", "flat", tk, FALSE, FALSE, FALSE, FALSE, sy, FALSE, a8) :
+                      tk \in TokCls, sy \in BOOLEAN, a8 \in BOOLEAN } :
+              b.alt258 => HasMatches(b.toks) }
+Dyn    == { b \in { Blk("dyn", ls, ds, tk, rp, cr, fh, mh, sy, wc, a8) :
                       ls \in LShapes, ds \in DShapes, tk \in TokCls, rp \in BOOLEAN, cr \in BOOLEAN,
-                      fh \in BOOLEAN, mh \in BOOLEAN, sy \in BOOLEAN } :
+                      fh \in BOOLEAN, mh \in BOOLEAN, sy \in BOOLEAN, wc \in BOOLEAN, a8 \in BOOLEAN } :
               /\ (b.cross => b.repeat)                         \* a run can only cross the boundary if runs are used
-              /\ (b.dshape = "none" => b.toks \in {"empty", "lits"}) }   \* no distance codes: no matches
+              /\ (b.dshape = "none" => b.toks \in {"empty", "lits"})    \* no distance codes: no matches
+              /\ (b.alt258 => HasMatches(b.toks)) }
+
+\* The longest header the descriptor space can express (used by the harness to aim
+\* delivery schedules at the header staging buffer of the Reader).
+MaxHeader(b) == b.type = "dyn" /\ b.worstcl /\ ~b.repeat /\ b.maxh
 Blocks == Stored \cup Fixed \cup Dyn
 
 \* fault kind -> block types it can be injected in
